@@ -574,8 +574,15 @@ async def drive_stub(value):
     return {"read": rd, "write": wr}
 
 
-async def drive_raop(ops, streaming):
+async def drive_raop(ops, streaming, front=None):
     """Real FacadeAudio + real RaopAudio (+ real RaopStream.stream_file) on a fake playback manager.
+    front = "companion" | "mrp": a second REAL protocol (CompanionAudio / MrpAudio on a fake device) is
+    registered on the same facade and the same core state dispatcher; the facade relays audio calls
+    to it (priority), its level announcements are intercepted by RaopAudio.  In that mode ops are
+        ["set",hex,answer] | ["up",answer] | ["down",answer] | ["read"]        (facade -> front protocol;
+                           answer = fraction the device then reports, "echo" = the one it was sent)
+        ["dreport",hex] device reports that raw level | ["novol"] | ["missing"] | ["stream",hex|None]
+    listeners are run after every op, and the function returns (model_ops, events).
     ops: list of ["set",hex] | ["up"] | ["down"] | ["read"] | ["report",hex] | ["pump"] | ["inject",hex]
                 | ["stream", hex|None]   a stream starts and ends; the receiver advertises that initialVolume
     streaming: a stream client is present during the whole history (a stream is in progress)
@@ -588,7 +595,11 @@ async def drive_raop(ops, streaming):
     from pyatv.protocols.raop import RaopAudio, RaopStream
 
     cur = []
+    pumped = []
     phase = {"p": "op"}
+
+    def rec(e):
+        (pumped if (front and phase["p"] == "pump") else cur).append(e)
 
     class Context:
         credentials = None
@@ -611,9 +622,9 @@ async def drive_raop(ops, streaming):
                 # just sent to the receiver: one observable ("dev") as long as both are the same level
                 sent, phase["sent"] = phase["sent"], None
                 if fhex(sent) != fhex(v):
-                    cur.append(("dev", fhex(v)))
+                    rec(("dev", fhex(v)))
             else:
-                cur.append(({"op": "dev", "pump": "echo", "stream": "adopt"}[phase["p"]], fhex(v)))
+                rec(({"op": "dev", "pump": "echo", "stream": "adopt"}[phase["p"]], fhex(v)))
             self._v = v
 
     class FakeRtsp:
@@ -622,7 +633,7 @@ async def drive_raop(ops, streaming):
         async def set_parameter(self, name, value):      # does not suspend: one call is atomic in the model
             if name == "volume":
                 lv = float(value)
-                cur.append(("dev", fhex(lv)))
+                rec(("dev", fhex(lv)))
                 phase["sent"] = lv
 
     def make_client(context, info=None):
@@ -688,16 +699,28 @@ async def drive_raop(ops, streaming):
 
     def on_exc(lp, context):
         ex = context.get("exception")
-        cur.append(("swallowed", exn_name(ex) if ex is not None else "Other:none"))
+        rec(("swallowed", exn_name(ex) if ex is not None else "Other:none"))
 
     loop.set_exception_handler(on_exc)
     cd = MessageDispatcher()
+
+    def mark_start(message):            # first Volume listener: what follows is a listener delivery
+        phase["saved"] = phase["p"]
+        phase["p"] = "pump"
+
+    def mark_end(message):              # last Volume listener
+        phase["p"] = phase.get("saved", "op")
+
+    if front:
+        cd.listen_to(UpdatedState.Volume, mark_start)
     fa = FacadeAudio(cd)
-    lst = _Listener(cur.append)
+    lst = _Listener(rec)
     fa.listener = lst
     pm = PM()
     ra = RaopAudio(pm, ProtocolStateDispatcher(Protocol.RAOP, cd))
     fa.register(ra, Protocol.RAOP)
+    if front:
+        cd.listen_to(UpdatedState.Volume, mark_end)
     class StreamListener:
         def playing(self, info):
             pass
@@ -710,15 +733,150 @@ async def drive_raop(ops, streaming):
     real_set = ra.set_volume
 
     async def spy_set(level):
-        cur.append(("fwd", fhex(level)))
+        rec(("fwd", fhex(level)))
         await real_set(level)
 
     ra.set_volume = spy_set
+
+    # ---- the front protocol (cross-protocol mode)
+    dev = {"vol": 0.0, "missing": False, "answer": None, "hid": 0, "tasks": [], "sent": None}
+    handler = {}
+    fp = None
+    if front == "companion":
+        from pyatv.protocols.companion import CompanionAudio, MediaControlFlags
+        from pyatv.protocols.companion.api import MediaControlCommand
+
+        def device_event():
+            dev["tasks"].append(asyncio.ensure_future(handler["_iMC"]({"_mcF": int(MediaControlFlags.Volume)})))
+
+        def answer():
+            if dev["answer"] is not None:
+                dev["vol"] = dev["sent"] if dev["answer"] == "echo" else unhex(dev["answer"])
+                dev["reported"] = dev["vol"]
+                dev["answer"] = None
+                loop.call_soon(device_event)
+
+        class FakeApi:
+            def listen_to(self, name, func):
+                handler[name] = func
+
+            async def mediacontrol_command(self, command, args=None):
+                if command == MediaControlCommand.SetVolume:
+                    dev["sent"] = args["_vol"]
+                    answer()
+                    return {}
+                if command == MediaControlCommand.GetVolume:
+                    return {"_c": {}} if dev["missing"] else {"_c": {"_vol": dev["vol"]}}
+                return {}
+
+            async def hid_command(self, down, command):
+                if down:
+                    rec(("key",))
+                else:
+                    answer()
+
+        class FrontCore:
+            state_dispatcher = ProtocolStateDispatcher(Protocol.Companion, cd)
+
+        fp = CompanionAudio(FakeApi(), FrontCore())
+        fa.register(fp, Protocol.Companion)
+    elif front == "mrp":
+        from pyatv.protocols.mrp import MrpAudio, messages, protobuf
+
+        class FakeMrp:
+            def __init__(self):
+                di = messages.create(protobuf.DEVICE_INFO_MESSAGE)
+                di.inner().deviceUID = MY_UID
+                self.device_info = di
+
+            def listen_to(self, t, f):
+                pass
+
+        fp = MrpAudio(FakeMrp(), ProtocolStateDispatcher(Protocol.MRP, cd))
+        fp._volume_controls_available = True
+        fp._volume_controls_absolute = True
+        fa.register(fp, Protocol.MRP)
+    if fp is not None and front == "companion":
+        real_front_set = fp.set_volume
+
+        async def spy_front_set(level):
+            rec(("fwd", fhex(level)))
+            await real_front_set(level)
+
+        fp.set_volume = spy_front_set
+    mops, mout = [], []
+
+    async def run_front(op):
+        """One op of the cross-protocol mode; appends to mops / mout."""
+        del cur[:], pumped[:]
+        phase["p"] = "op"
+        phase["sent"] = None
+        dev["reported"] = None
+        k = op[0]
+        try:
+            if k == "stream":
+                phase["p"] = "stream"
+                pm.next_info = {} if op[1] is None else {"initialVolume": unhex(op[1])}
+                await stream.stream_file("verif.mp3")
+            elif front == "mrp":
+                if k != "dreport":
+                    raise RuntimeError("bad op %r" % (op,))
+                m = messages.create(protobuf.VOLUME_DID_CHANGE_MESSAGE)
+                m.inner().outputDeviceUID = MY_UID
+                m.inner().volume = unhex(op[1])
+                await fp._volume_did_change(m)
+            elif k == "set":
+                dev["answer"] = op[2]
+                await asyncio.wait_for(fa.set_volume(unhex(op[1])), 60)
+            elif k in ("up", "down"):
+                dev["answer"] = op[1]
+                await asyncio.wait_for(fa.volume_up() if k == "up" else fa.volume_down(), 60)
+            elif k == "read":
+                rec(("ret", fhex(fa.volume)))
+            elif k in ("dreport", "novol", "missing"):
+                dev["missing"] = k == "missing"
+                if k == "dreport":
+                    dev["vol"] = unhex(op[1])
+                try:
+                    await handler["_iMC"]({"_mcF": 0 if k == "novol" else int(MediaControlFlags.Volume)})
+                except KeyError:
+                    pass          # the device-event path: logged by the connection, nobody sees it
+                dev["missing"] = False
+            else:
+                raise RuntimeError("bad op %r" % (op,))
+        except Exception as ex:  # noqa
+            rec(("exc", exn_name(ex)))
+        dev["answer"] = None
+        evs = [e for e in cur]
+        phase["p"] = "op"
+        for _ in range(6):
+            await asyncio.sleep(0)
+        if front == "mrp":
+            if k == "dreport":
+                mops.append(["report", fhex(fp._volume)])
+                mout.append(evs)
+            else:
+                mops.append(["stream", op[1]])
+                mout.append(evs)
+            mops.append(["pump"])
+            mout.append(list(pumped))
+            return
+        mops.append({"dreport": ["report", op[1] if k == "dreport" else None]}.get(k, [k] + ([op[1]] if k in ("set", "stream") else [])))
+        mout.append(evs)
+        if dev["reported"] is not None:       # the device's answer to the request
+            mops.append(["report", fhex(dev["reported"])])
+            mout.append([])
+        mops.append(["pump"])
+        mout.append(list(pumped))
     saved = (raop_mod.open_source, raop_mod.extract_credentials)
     raop_mod.open_source = fake_open_source
     raop_mod.extract_credentials = lambda service: None
     out = []
     try:
+        if front:
+            for op in ops:
+                await run_front(op)
+            return mops, mout
         for op in ops:
             del cur[:]
             phase["p"] = "op"
@@ -942,12 +1100,13 @@ def judge_raop(ops, events):
     errs = []
     nan_state = False        # the context holds NaN because some side reported NaN as the level
     ctx_bad = False          # the context holds an injected device-side dBFS above 0
-    expected = None          # level last set by the user and not touched since
+    expected = None          # level RAOP is to hold: last set by the user / stepped to / validly announced
     user_changed = False     # the user changed the level (set / step went through) since the history began
+    pending = []             # Volume announcements queued for the listeners, in order (None: RAOP's own)
     for op, evs in zip(ops, events):
         kind = op[0]
         if kind == "report":
-            expected = None
+            pending.append(unhex(op[1]))
             continue
         if kind == "inject":
             v = unhex(op[1])
@@ -960,6 +1119,16 @@ def judge_raop(ops, events):
             if ech:
                 nan_state = ech[-1] != ech[-1]
                 ctx_bad = False
+            # a level announced by another protocol and within [0,100] is the level RAOP now holds (what it
+            # reads back and forwards at the next stream start); one outside the range is not taken over
+            for v in pending:
+                if v is None:
+                    continue
+                if in_range(v):
+                    expected = v
+                elif v != v:
+                    expected = None
+            del pending[:]
             continue
         fw = [unhex(e[1]) for e in evs if e[0] == "fwd"]
         dv = [unhex(e[1]) for e in evs if e[0] == "dev"]
@@ -1042,6 +1211,102 @@ def judge_raop(ops, events):
             ctx_bad = False
         if kind in ("set", "up", "down") and fw and not ex:
             user_changed = True
+        if kind in ("set", "up", "down", "stream") and fw and not ex:
+            pending.append(fw[-1])     # RaopAudio announces its own level
+    return errs
+
+
+def judge_cross(mops, events):
+    """facade + CompanionAudio + RaopAudio on one dispatcher (model-op vocabulary of drive_raop front mode)."""
+    errs = []
+    last_pct = 0.0           # percent level the device last reported (fraction * 100)
+    pending = []             # announcements queued: the percent levels that must be announced
+    raop_level = None        # level RAOP is to hold from the announcements
+    nan_state = False
+    cexpected = None         # level the user set and the device confirmed
+    prev = None
+    for op, evs in zip(mops, events):
+        kind = op[0]
+        fw = [unhex(e[1]) for e in evs if e[0] == "fwd"]
+        dv = [unhex(e[1]) for e in evs if e[0] == "dev"]
+        ex = [e[1] for e in evs if e[0] == "exc"]
+        rt = [unhex(e[1]) for e in evs if e[0] == "ret"]
+        area = {"set": "write", "read": "read", "up": "step", "down": "step", "stream": "stream"}.get(kind, "cross")
+        for e in ex:
+            if e != "ProtocolError":
+                errs.append(("C20:%s:wrong-exception" % area, "%s raised %s" % (kind, e)))
+        if kind == "report":
+            f = unhex(op[1])
+            last_pct = f * 100.0
+            pending.append(last_pct)
+            if not (prev is not None and prev[0] == "set" and cexpected is not None and f == cexpected / 100.0):
+                cexpected = None
+        elif kind == "novol":
+            last_pct = 0.0
+            pending.append(0.0)
+            cexpected = None
+        elif kind == "pump":
+            told = [unhex(e[2]) for e in evs if e[0] == "push"]
+            for t in told:
+                if not any(same(t, p) or (t == t and p == p and abs(t - p) <= TINY) for p in pending):
+                    errs.append(("C20:cross:announced-level-differs",
+                                 "the device reported %r percent; listeners were told %r" % (pending, t)))
+            for v in pending:
+                if in_range(v):
+                    raop_level = v
+                elif v != v:
+                    raop_level = None
+            ech = [unhex(e[1]) for e in evs if e[0] == "echo"]
+            if ech:
+                nan_state = ech[-1] != ech[-1]
+            del pending[:]
+        elif kind == "set":
+            lv = unhex(op[1])
+            for g in fw:
+                if not in_range(g):
+                    errs.append(("C20:write:out-of-range-forwarded", "set_volume(%r) handed %r to CompanionAudio.set_volume" % (lv, g)))
+            if in_range(lv):
+                if "ProtocolError" in ex:
+                    errs.append(("C20:write:in-range-rejected", "set_volume(%r) raised ProtocolError" % lv))
+                elif not ex and not (len(fw) == 1 and fw[0] == lv):
+                    errs.append(("C20:write:level-altered", "set_volume(%r) handed %r to the protocol" % (lv, fw)))
+                cexpected = lv if not ex else None
+            elif not ex and not fw:
+                errs.append(("C20:write:out-of-range-accepted", "set_volume(%r) returned normally" % lv))
+        elif kind == "read":
+            for r in rt:
+                if not in_range(r):
+                    errs.append(("C20:read:out-of-range-returned", "audio.volume returned %r" % r))
+                elif not (r == last_pct):
+                    errs.append(("C20:read:value-altered", "device level %r percent, audio.volume returned %r" % (last_pct, r)))
+                elif cexpected is not None and r != cexpected:
+                    err = abs(r - cexpected)
+                    errs.append(("C20:roundtrip:float-inexact" if err <= TINY else "C20:roundtrip:deviation",
+                                 "set_volume(%r) then audio.volume returned %r (|error| %.3g)" % (cexpected, r, err)))
+            if "ProtocolError" in ex and in_range(last_pct):
+                errs.append(("C20:read:in-range-rejected", "audio.volume raised ProtocolError for level %r" % last_pct))
+        elif kind == "stream":
+            ad = [e for e in evs if e[0] == "adopt"]
+            for g in fw:
+                if not in_range(g):
+                    if g != g and nan_state:
+                        errs.append(("C20:step:raop:nan-report-forwarded",
+                                     "stream start after a NaN level report handed NaN to RaopAudio.set_volume and on to the device"))
+                    else:
+                        errs.append(("C20:cross:out-of-range-forwarded", "stream start handed %r to RaopAudio.set_volume" % g))
+            for d in dv:
+                if not dbfs_ok(d) and not (d != d and nan_state):
+                    errs.append(("C20:stream:dbfs-out-of-range", "stream start sent %r dBFS to the receiver" % d))
+            if raop_level is not None and not ex:
+                if ad or not any(g == g and abs(g - raop_level) <= TINY for g in fw):
+                    errs.append(("C20:cross:forwarded-level-differs",
+                                 "the device's level %r percent was announced; stream start handed %r to RaopAudio.set_volume%s"
+                                 % (raop_level, fw, " (receiver's initial level adopted instead)" if ad else "")))
+            if dv:
+                nan_state = dv[-1] != dv[-1]
+            if fw and not ex:
+                pending.append(fw[-1])          # RAOP's own announcement of the level it re-sent
+        prev = op
     return errs
 
 
@@ -1359,6 +1624,17 @@ def cmop(op):
     return {"up": "mUp", "down": "mDown", "read": "mRead"}[k]
 
 
+def cxop(op):
+    k = op[0]
+    if k == "set":
+        return "(xSet %s)" % cfloat(unhex(op[1]))
+    if k == "report":
+        return "(xReport %s)" % cfloat(unhex(op[1]))
+    if k == "stream":
+        return "(xStream None)" if op[1] is None else "(xStream (Some %s))" % cfloat(unhex(op[1]))
+    return {"up": "xUp", "down": "xDown", "read": "xRead", "novol": "xNoVol", "missing": "xMissing", "pump": "xPump"}[k]
+
+
 def cobs(events):
     return common.clist([common.clist([cevent(e) for e in evs]) for evs in events])
 
@@ -1433,6 +1709,18 @@ def run_case(case):
         return errs, [term], ("mrp", case["abs"], case["rel"], json.dumps(case["ops"])), nontriv, \
             {"kind": k, "abs": case["abs"], "rel": case["rel"], "ops": case["ops"], "model_ops": mops, "impl_events": ev,
              "at_return": [None if i is None else [i["before"], i["at_return"], i["settled"]] for i in infos]}
+    if k == "cross":
+        front = case["front"]
+        mops, ev = vloop.run(drive_raop, case["ops"], bool(case.get("streaming", False)), front)
+        if front == "mrp":
+            errs = judge_raop(mops, ev)
+            term = "CRaop %s %s" % (common.clist([crop(o) for o in mops]), cobs(ev))
+        else:
+            errs = judge_cross(mops, ev)
+            term = "CCross %s %s" % (common.clist([cxop(o) for o in mops]), cobs(ev))
+        nontriv = any(e[0] in ("fwd", "ret", "dev") for evs in ev for e in evs)
+        return errs, [term], ("cross", front, case.get("streaming", False), json.dumps(case["ops"])), nontriv, \
+            {"kind": k, "front": front, "ops": case["ops"], "model_ops": mops, "impl_events": ev}
     raise ValueError("unknown case kind %r" % k)
 
 
@@ -1459,7 +1747,9 @@ def run(ctx):
                 "with level changes of other output devices interleaved with this device's confirmations), a mostly-valid "
                 "stream and a hostile stream; (d) set-then-read of the ends of the range and of samples on every path: RAOP idle, "
                 "during a stream, across a stream start with and without the receiver's initialVolume, MRP with foreign "
-                "confirmations before/after the own one. "
+                "confirmations before/after the own one; (e) cross-protocol: real CompanionAudio (and MrpAudio) registered with "
+                "RaopAudio on one facade and one core state dispatcher - device reports of raw levels (valid, out of range, NaN, "
+                "infinite, missing), set/step through the facade, listener deliveries, RAOP stream starts. "
                 "non-trivial = the implementation produced a value / forwarded a level; distinct by canonical input")
     cases = []
 
@@ -1575,6 +1865,49 @@ def run(ctx):
                  "streaming": streaming}, "paths")
             add({"kind": "raop", "ops": [["up"], ["stream", init], ["read"]], "streaming": streaming}, "paths")
             add({"kind": "raop", "ops": [["read"], ["down"], ["pump"], ["stream", init], ["read"]], "streaming": streaming}, "paths")
+
+    # (e) cross-protocol: a level announced by one protocol (Companion / MRP) through the core state
+    #     dispatcher is intercepted by RaopAudio and forwarded at the next stream start
+    fracs = [0.0, -0.0, 0.005, 0.05, 0.33, 0.5, 0.55, 0.999, 1.0, 1.0000000000000002, 1e-9, 5e-324,
+             1.5, 37.0, -0.5, -1e-9, 2.0, NAN, INF, -INF]
+    fracs += [rng.uniform(0.0, 1.0) for _ in range(8 * scale)] + [rng.uniform(-2.0, 3.0) for _ in range(4 * scale)]
+    for n, f in enumerate(fracs):
+        for init in (None, fhex(-20.0)):
+            for streaming in (False, True):
+                add({"kind": "cross", "front": "companion", "streaming": streaming, "ops": [
+                    ["dreport", fhex(f)], ["read"], ["stream", init], ["read"], ["stream", None]]}, "cross")
+                add({"kind": "cross", "front": "companion", "streaming": streaming, "ops": [
+                    ["dreport", fhex(0.4)], ["dreport", fhex(f)], ["stream", init], ["novol"], ["stream", init]]}, "cross")
+            add({"kind": "cross", "front": "mrp", "streaming": n % 2 == 0, "ops": [
+                ["dreport", fhex(f32(f))], ["stream", init], ["dreport", fhex(f32(0.25))], ["stream", None]]}, "cross")
+    for lv in boundary_levels() + [rng.uniform(0.0, 100.0) for _ in range(6 * scale)]:
+        add({"kind": "cross", "front": "companion", "streaming": False, "ops": [
+            ["set", fhex(lv), "echo"], ["read"], ["stream", fhex(-20.0)], ["read"], ["up", fhex(min(lv / 100.0 + 0.05, 1.0))],
+            ["read"], ["stream", None]]}, "cross")
+    for i in range(120 * scale):
+        hostile = i % 4 == 3
+        ops = []
+        for _ in range(rng.randint(1, 9)):
+            r = rng.random()
+            fr = pick_devvol(rng, hostile)
+            if hostile and rng.random() < 0.3:
+                fr = rng.choice([1.5, 37.0, -0.5, NAN, INF, rng.uniform(-3, 4)])
+            if r < 0.25:
+                ops.append(["dreport", fhex(fr)])
+            elif r < 0.40:
+                lv = pick_level(rng, hostile)
+                ops.append(["set", fhex(lv), "echo" if rng.random() < 0.7 else fhex(fr)])
+            elif r < 0.52:
+                ops.append([rng.choice(["up", "down"]), fhex(fr)])
+            elif r < 0.70:
+                ops.append(["read"])
+            elif r < 0.90:
+                ops.append(["stream", rng.choice([None, fhex(-20.0), fhex(-144.0), fhex(0.0)])])
+            elif r < 0.95:
+                ops.append(["novol"])
+            else:
+                ops.append(["missing"])
+        add({"kind": "cross", "front": "companion", "streaming": rng.random() < 0.4, "ops": ops}, "cross")
 
     terms = []      # (term text, case)
     t0 = _t.time()
